@@ -1147,6 +1147,22 @@ def sig_check(prop, tier):
         # the same gate through EVERY arm of fake!: identical type accepted, another kind refused
         n_total, ok_arms, failed, nscen, arms_, _sc = arms_pipeline(run, "C09", 1)
         run.extra["fake_arms_gate"] = {"arms": n_total, "compiled": len(ok_arms), "scenarios": nscen}
+        # async half: every ordered pair of output types through async_func! x async_return!
+        ag, ao, _ = vlib.run_harness("asyncs", [{"id": 1, "mode": "asyncpairs"}], "asyncpairs_C09")
+        aevs = [e for e in ag.get(1, []) if e["ev"] in ("AsyncPair", "ChildExit")]
+        aper = [(k, [e]) for k, e in enumerate(aevs, 1)]
+        tva = tlc.validate_traces("Trace_Async", "Trace_Async", aper, WORK, "trace_asyncpairs", timeout=600)
+        run.traces += len(tva["accepted"])
+        run.states += tva["states"]
+        run.transitions += tva["transitions"]
+        if sum(1 for e in aevs if e["ev"] == "AsyncPair") < 25:
+            raise ToolError("vacuity guard: async pairs did not run")
+        for sid, ev1 in aper:
+            e = ev1[0]
+            if e["ev"] == "AsyncPair":
+                run.note_case("async %s->%s" % (e["t1"], e["t2"]))
+            if sid not in tva["accepted"]:
+                run.violation("C09 async target-output=%s fake-output=%s verdict=%s" % (e.get("t1"), e.get("t2"), e.get("verdict")), {"event": e})
     else:
         run.rule = ("boolean gate: %d target return types (bool, alias of bool, unsafe/extern bool functions, fn() -> bool, fn(u8) -> fn() -> bool, "
                     "Option<bool>, &bool, (bool,), Result<(), bool>, String, (), u8, *const bool, -> bool inside a parameter, Box<dyn Fn() -> bool>) x "
